@@ -22,7 +22,7 @@ Require Import Hdl21.Base.PyInt Hdl21.Spec.PySlice Hdl21.Model.Slice Hdl21.Model
                Hdl21.Model.C01EElab Hdl21.Model.C01FElab Hdl21.Spec.C01FNets Hdl21.Proofs.C01FProofsEnd
                Hdl21.Spec.C19Topology Hdl21.Model.C19Series Hdl21.Proofs.C19Proofs
                Hdl21.Model.C19EDesign Hdl21.Proofs.C19EProofsStep Hdl21.Proofs.C19EProofsTopo Hdl21.Proofs.C19EProofsWf
-               Hdl21.Proofs.C19EProofsWrap Hdl21.Proofs.C19EProofsEnd Hdl21.Proofs.C19EProofsTerms.
+               Hdl21.Proofs.C19EProofsWrap Hdl21.Proofs.C19EProofsEnd Hdl21.Proofs.C19EProofsTerms Hdl21.Proofs.C19EProofsNames.
 Open Scope string_scope.
 Open Scope Z_scope.
 
@@ -236,6 +236,69 @@ Theorem C19E_exported_port_nets_partial nm io a b w n xi p :
 Proof. exact (series_exported_port_nets nm io a b w n xi p). Qed.
 Print Assumptions C19E_exported_port_nets_partial.
 
+(* 13. NOTHING LEFT ABSTRACT.  ResolvePortRefs (both steps of the extended model) leaves the design as it is; element e of
+       the array becomes the single instance named nth e nms, where nms are the names ArrayFlattener's naming function
+       (Model/C01EElab.v:name_elems - flatname [units; str(e)] avoiding the growing namespace, the function C05 is about) yields;
+       these names exist whenever the model exports the design.  So the exported package, read as the netlisters read it,
+       has EXACTLY the documented partition on the nodes "bit k of port q of instance nth e nms" and "bit k of port q of the
+       stack", and every such instance is the unit device.  This is the full statement; the `_partial` ones above are kept
+       because they are stated through term_map2 as Props/C01F.v states them. *)
+Theorem C19E_portrefs_identity nm io a b w n xi : series_ok nm io a b w n = true ->
+  portrefs2_design xi (series_design nm io a b w n) = Ok (series_design nm io a b w n).
+Proof. intros H. exact (series_portrefs2_design nm io a b w n H xi). Qed.
+Print Assumptions C19E_portrefs_identity.
+
+Theorem C19E_term_map_spelled nm io a b w n xi nms e p k : series_ok nm io a b w n = true ->
+  name_elems (sn_units nm) (Z.to_nat n) 0%N (remove_name (sn_units nm) (map fst io ++ [sn_i nm] ++ [sn_units nm])) = Ok nms ->
+  term_map2 xi (series_design nm io a b w n) (NPort [] (sn_units nm) e p k) = NPort [] (nth (Z.to_nat e) nms (sn_units nm)) 0 p k.
+Proof. intros H. exact (series_term_map_units nm io a b w n H xi nms e p k). Qed.
+Print Assumptions C19E_term_map_spelled.
+
+Theorem C19E_exported_topology nm io a b w n xi p :
+  series_ok nm io a b w n = true ->
+  xinfo_ok xi (series_design nm io a b w n) = true -> elab_export_model2 xi (series_design nm io a b w n) = Ok p ->
+  exists pd nms, design_of_pkg prims_ext p (sn_mod nm) = Ok pd /\
+    name_elems (sn_units nm) (Z.to_nat n) 0%N (remove_name (sn_units nm) (map fst io ++ [sn_i nm] ++ [sn_units nm])) = Ok nms /\
+    let U e q k := NPort [] (nth (Z.to_nat e) nms (sn_units nm)) 0 q k in
+    (forall e1 q1 w1 k1 e2 q2 w2 k2, In (q1, w1) io -> 0 <= k1 < w1 -> 0 <= e1 < n -> In (q2, w2) io -> 0 <= k2 < w2 -> 0 <= e2 < n ->
+       (same_net pd (U e1 q1 k1) (U e2 q2 k2) <-> series_key n a b e1 q1 k1 = series_key n a b e2 q2 k2)) /\
+    (forall e1 q1 w1 k1 q2 w2 k2, In (q1, w1) io -> 0 <= k1 < w1 -> 0 <= e1 < n -> In (q2, w2) io -> 0 <= k2 < w2 ->
+       (same_net pd (U e1 q1 k1) (NSig [] q2 k2) <-> series_key n a b e1 q1 k1 = KPort q2 k2)) /\
+    (forall q1 w1 k1 q2 w2 k2, In (q1, w1) io -> 0 <= k1 < w1 -> In (q2, w2) io -> 0 <= k2 < w2 ->
+       (same_net pd (NSig [] q1 k1) (NSig [] q2 k2) <-> (q1 = q2 /\ k1 = k2))) /\
+    (forall e q wq k, In (q, wq) io -> 0 <= k < wq -> 0 <= e < n -> dev_at pd (U e q k) = Ok (sn_dev nm)).
+Proof. exact (series_exported_explicit nm io a b w n xi p). Qed.
+Print Assumptions C19E_exported_topology.
+
+(* MosStack: the same at ("d", "s"), one-bit series ports *)
+Theorem C19E_mosstack_exported nm io n xi p :
+  series_ok nm io "d" "s" 1 n = true ->
+  xinfo_ok xi (mosstack_design nm io n) = true -> elab_export_model2 xi (mosstack_design nm io n) = Ok p ->
+  exists pd nms, design_of_pkg prims_ext p (sn_mod nm) = Ok pd /\
+    name_elems (sn_units nm) (Z.to_nat n) 0%N (remove_name (sn_units nm) (map fst io ++ [sn_i nm] ++ [sn_units nm])) = Ok nms /\
+    let U e q k := NPort [] (nth (Z.to_nat e) nms (sn_units nm)) 0 q k in
+    (forall e1 q1 w1 k1 e2 q2 w2 k2, In (q1, w1) io -> 0 <= k1 < w1 -> 0 <= e1 < n -> In (q2, w2) io -> 0 <= k2 < w2 -> 0 <= e2 < n ->
+       (same_net pd (U e1 q1 k1) (U e2 q2 k2) <-> series_key n "d" "s" e1 q1 k1 = series_key n "d" "s" e2 q2 k2)) /\
+    (forall e1 q1 w1 k1 q2 w2 k2, In (q1, w1) io -> 0 <= k1 < w1 -> 0 <= e1 < n -> In (q2, w2) io -> 0 <= k2 < w2 ->
+       (same_net pd (U e1 q1 k1) (NSig [] q2 k2) <-> series_key n "d" "s" e1 q1 k1 = KPort q2 k2)) /\
+    (forall q1 w1 k1 q2 w2 k2, In (q1, w1) io -> 0 <= k1 < w1 -> In (q2, w2) io -> 0 <= k2 < w2 ->
+       (same_net pd (NSig [] q1 k1) (NSig [] q2 k2) <-> (q1 = q2 /\ k1 = k2))) /\
+    (forall e q wq k, In (q, wq) io -> 0 <= k < wq -> 0 <= e < n -> dev_at pd (U e q k) = Ok (sn_dev nm)).
+Proof. exact (series_exported_explicit nm io "d" "s" 1 n xi p). Qed.
+Print Assumptions C19E_mosstack_exported.
+
+(* Wrapper / nser = 1, nothing abstract: the inner instance keeps its name; bit k of its port q is on the net of bit k of
+   port q of the wrapper, and no two different port bits are merged *)
+Theorem C19E_wrapper_exported nm io xi p : wrapper_ok nm io = true ->
+  xinfo_ok xi (wrapper_design nm io) = true -> elab_export_model2 xi (wrapper_design nm io) = Ok p ->
+  exists pd, design_of_pkg prims_ext p (sn_mod nm) = Ok pd /\
+    (forall q1 w1 k1 q2 w2 k2, In (q1, w1) io -> 0 <= k1 < w1 -> In (q2, w2) io -> 0 <= k2 < w2 ->
+       (same_net pd (NPort [] (sn_units nm) 0 q1 k1) (NSig [] q2 k2) <-> (q1 = q2 /\ k1 = k2)) /\
+       (same_net pd (NPort [] (sn_units nm) 0 q1 k1) (NPort [] (sn_units nm) 0 q2 k2) <-> (q1 = q2 /\ k1 = k2)) /\
+       (same_net pd (NSig [] q1 k1) (NSig [] q2 k2) <-> (q1 = q2 /\ k1 = k2))).
+Proof. intros H. exact (wrapper_exported_explicit nm io H xi p). Qed.
+Print Assumptions C19E_wrapper_exported.
+
 (* ---- non-vacuity: a 4-port unit with a two-bit gate, stacked 4 times over (d, s); a unit with two-bit series ports ---- *)
 Definition ex_dev : devinfo :=
   {| dv_dom := ""; dv_name := "Emos5"; dv_params := [("tag", "int:1")];
@@ -264,6 +327,12 @@ Example C19E_ex_package : exists p top, elab_export_model2 ex_xi (mosstack_desig
      (Some (PSlice "i" 1 1), Some (PSlice "i" 2 2), Some (PSig "g"));
      (Some (PSlice "i" 2 2), Some (PSig "s"), Some (PSig "g"))].
 Proof. vm_compute. eexists. eexists. repeat split; reflexivity. Qed.
+
+Example C19E_ex_names :
+  name_elems "units" 4 0%N (remove_name "units" (map fst ex_io ++ ["i"] ++ ["units"])) = Ok ["units_0"; "units_1"; "units_2"; "units_3"] /\
+  name_elems "units" 2 0%N (remove_name "units" (map fst [("a", 1); ("units_0", 1); ("units_1", 1)] ++ ["i"] ++ ["units"]))
+    = Ok ["units_0_"; "units_1_"].
+Proof. split; vm_compute; reflexivity. Qed.
 
 Definition exw_dev : devinfo :=
   {| dv_dom := ""; dv_name := "E2w"; dv_params := [("tag", "int:1")];
